@@ -12,3 +12,10 @@ GROUPS = [
  _e("emcy_cnt", "COEmcyCnt", 3, [], ["a"]),
  _e("emcy_reset", "COEmcyReset", 4, _DV, ["a"], timeout=1200, object_bits=12, props={"C15": "thorough", "C01": "thorough"}),
 ]
+
+def _h(name, fn, op):
+    return dict(name=name, fn=fn, form="explicit", harness="emcy_hist.c", static_tu="object/cia301/co_emcy_hist.c", defs=["VW_OP=%d" % op], nondet_static=True,
+                tus=["object/basic/co_integer8.c", "object/basic/co_integer32.c"], loop_tus={}, unwind_all=11, reach=["post", "a", "b"],
+                props={"C15": "quick", "C01": "quick"}, timeout=600, cost=10, object_bits=10, bounded="history depth <= 8 entries (the depth range of the property; offsets, counts, values symbolic)")
+GROUPS += [_h("emcy_hist_add", "COEmcyHistAdd", 0), _h("emcy_hist_reset", "COEmcyHistReset", 1), _h("emcy_hist_read", "COTEmcyHistRead", 2),
+           _h("emcy_hist_write", "COTEmcyHistWrite", 3), _h("emcy_hist_init", "COTEmcyHistInit", 4)]
